@@ -5,7 +5,7 @@ returns.
 Spec:   Observer.tla (requirement machine incl. the statistics counter
         machine), ObserverImpl.tla (operation pipeline with observer hooks in
         code order; totality of the hooks per configuration x response class;
-        the two legacy hook shapes must fail), ObserverTrace.tla.
+        the three legacy hook shapes must fail), ObserverTrace.tla.
 Binding: every cell <operation, scripted server behaviour, observer
         configuration> is executed on a real WBEMConnection whose session has a
         scripted transport adapter, once bare and once configured; outcomes,
@@ -17,6 +17,7 @@ import datetime as _dt
 import io
 import logging
 import os
+import re
 import hashlib
 
 import requests
@@ -41,12 +42,23 @@ NS = "root/cimv2"
 # scripted server
 # ---------------------------------------------------------------------------
 
-def _inst(i, text):
-    path = CIMInstanceName("VT_Thing", keybindings={"k": Uint32(i)},
+def _inst(i, text, realkey=None):
+    """realkey: a Python float; as a key binding it is written as
+    <KEYVALUE VALUETYPE="numeric"> WITHOUT the optional TYPE attribute (what
+    servers older than DSP0201 2.3 send for every numeric key), which pywbem
+    parses back into a plain float."""
+    kb = {"k": Uint32(i)}
+    props = [CIMProperty("k", Uint32(i)),
+             CIMProperty("s", text, type="string")]
+    if realkey is not None:
+        kb["f"] = realkey
+        props.append(CIMProperty(
+            "r", CIMInstanceName("VT_Other", keybindings={"f": realkey},
+                                 namespace=NS),
+            type="reference", reference_class="VT_Other"))
+    path = CIMInstanceName("VT_Thing", keybindings=kb,
                            namespace=NS, host="verif-host")
-    return CIMInstance("VT_Thing", properties=[
-        CIMProperty("k", Uint32(i)), CIMProperty("s", text, type="string")],
-        path=path)
+    return CIMInstance("VT_Thing", properties=props, path=path)
 
 
 def _simple_rsp(child, msgid="1001"):
@@ -57,13 +69,13 @@ def _export_rsp(child, msgid="1001"):
     return X.CIM(X.MESSAGE(X.SIMPLEEXPRSP(child), msgid, "1.4"), "2.0", "2.0")
 
 
-def success_body(op, text):
+def success_body(op, text, realkey=None):
     if op == "ExportIndication":
         return _export_rsp(X.EXPMETHODRESPONSE("ExportIndication")
                            ).toxml().encode("utf-8")
     """A DTD-valid success reply for the operation; `text` is put into the
     string property values (non-ASCII multi-byte content)."""
-    insts = [_inst(1, text), _inst(2, text + "2")]
+    insts = [_inst(1, text, realkey), _inst(2, text + "2", realkey)]
     if op in ("GetInstance",):
         ret = [insts[0].tocimxml(ignore_path=True)]
     elif op == "EnumerateInstances":
@@ -119,9 +131,12 @@ def success_body(op, text):
         return _simple_rsp(X.IMETHODRESPONSE(
             op, [X.IRETURNVALUE(ret)] + pv)).toxml().encode("utf-8")
     elif op == "InvokeMethod":
+        pv = [X.PARAMVALUE("OutText", X.VALUE(text), "string")]
+        if realkey is not None:
+            pv.append(X.PARAMVALUE("OutRef", X.VALUE_REFERENCE(
+                insts[0].path.tocimxml()), "reference"))
         return _simple_rsp(X.METHODRESPONSE("DoIt", [
-            X.RETURNVALUE(X.VALUE("0"), "uint32"),
-            X.PARAMVALUE("OutText", X.VALUE(text), "string")]
+            X.RETURNVALUE(X.VALUE("0"), "uint32")] + pv
         )).toxml().encode("utf-8")
     else:
         raise vlib.MachineryError("no scripted reply for " + op)
@@ -145,7 +160,13 @@ FMT = "{0} {x} {} } { %s %(a)s %d {0!A} {{"      # text that is hostile to
 RESPONSES = ["ok_ascii", "ok_multibyte", "cimerror", "cimerror_fmt", "ok_fmt",
              "http500_fmt", "illformed_xml", "bad_utf8",
              "invalid_cimxml", "http500", "http401", "connerror", "timeout",
-             "ok_srvtime_numeric", "ok_srvtime_garbage"]
+             "ok_srvtime_numeric", "ok_srvtime_garbage",
+             # ObserverImpl "ok_untyped_real_key": the parsed result holds
+             # plain floats
+             "ok_untyped_real_key", "ok_untyped_inf_key"]
+# concrete members of the two classes (NaN is not comparable: excluded)
+REAL_KEYS = [1.5, -0.25, 2.0, 1e300, -0.0, 3.0e-7]
+INF_KEYS = [float("inf"), float("-inf")]
 MULTI = "Grüße €日本語 \U0001F600 café " * 3
 
 
@@ -153,9 +174,10 @@ WIRE_NAME = {"IterEnumerateInstances": "EnumerateInstances"}
 
 
 class Script:
-    def __init__(self, op, rclass):
+    def __init__(self, op, rclass, pick=0):
         self.op = WIRE_NAME.get(op, op)
         self.rclass = rclass
+        self.pick = pick        # which member of the response class
 
     def respond(self):
         """-> (status, headers, body) or raises a requests exception"""
@@ -194,7 +216,12 @@ class Script:
             h["WBEMServerResponseTime"] = "soon"
         text = "plain ascii text" if rc == "ok_ascii" else (
             FMT if rc == "ok_fmt" else MULTI)
-        return 200, h, success_body(op, text)
+        realkey = None
+        if rc == "ok_untyped_real_key":
+            realkey = REAL_KEYS[self.pick % len(REAL_KEYS)]
+        if rc == "ok_untyped_inf_key":
+            realkey = INF_KEYS[self.pick % len(INF_KEYS)]
+        return 200, h, success_body(op, text, realkey)
 
 
 class ScriptedAdapter(BaseAdapter):
@@ -312,6 +339,142 @@ OPS = {
 }
 
 
+# ---------------------------------------------------------------------------
+# argument shapes of ObserverImpl.ArgShapes other than "listed": values of
+# types that TestClientRecorder.toyaml() does not enumerate, put at every
+# kind of argument position.  A variant is named <Op>.<position>=<type>.
+# ---------------------------------------------------------------------------
+# fresh value per use (generators are consumed)
+FOREIGN = {
+    "float": lambda: 1.5,
+    "inf": lambda: float("inf"),
+    "set": lambda: {"s"},
+    "frozenset": lambda: frozenset(["s"]),
+    "generator": lambda: (x for x in ["s"]),
+    "dict_keys": lambda: {"s": 1}.keys(),
+    "object": lambda: object(),
+    "complex": lambda: 1j,
+    "range": lambda: range(2),
+}
+# documented "iterable of tuple(name, value)" for InvokeMethod's Params that
+# are neither list nor tuple
+PAIR_ITERABLES = {
+    "dict_items": lambda: {"P1": "a", "P2": Uint32(2)}.items(),
+    "generator": lambda: (p for p in [("P1", "a"), ("P2", Uint32(2))]),
+    "set": lambda: {("P1", "a")},
+    "frozenset": lambda: frozenset([("P1", "a")]),
+    "zip": lambda: zip(["P1", "P2"], ["a", Uint32(2)]),
+    "map": lambda: map(lambda n: (n, "a"), ["P1", "P2"]),
+}
+ARGCLASS = {}       # variant name -> ObserverImpl.ArgShapes member
+
+
+def _fkey(v, cls="VT_Thing"):
+    return CIMInstanceName(cls, keybindings={"k": v}, namespace=NS)
+
+
+def _add_arg_shape_variants():
+    cn = CIMClassName("VT_Thing", namespace=NS)
+
+    def add(name, cls, fn):
+        OPS[name] = fn
+        ARGCLASS[name] = cls
+    for t, mk in FOREIGN.items():
+        rej = [
+            # an object name / class name / qualifier name position
+            ("GetInstance.InstanceName", lambda c, v: c.GetInstance(v)),
+            ("DeleteInstance.InstanceName", lambda c, v: c.DeleteInstance(v)),
+            ("EnumerateInstances.ClassName",
+             lambda c, v: c.EnumerateInstances(v)),
+            ("EnumerateInstanceNames.ClassName",
+             lambda c, v: c.EnumerateInstanceNames(v)),
+            ("GetClass.ClassName", lambda c, v: c.GetClass(v)),
+            ("Associators.ObjectName", lambda c, v: c.Associators(v)),
+            ("References.ObjectName", lambda c, v: c.References(v)),
+            ("InvokeMethod.ObjectName",
+             lambda c, v: c.InvokeMethod("DoIt", v)),
+            ("OpenEnumerateInstances.ClassName",
+             lambda c, v: c.OpenEnumerateInstances(v, MaxObjectCount=10)),
+            # a list-of-names position
+            ("GetInstance.PropertyList",
+             lambda c, v: c.GetInstance(IPATH, PropertyList=v)),
+            ("EnumerateInstances.PropertyList",
+             lambda c, v: c.EnumerateInstances("VT_Thing", PropertyList=v)),
+            ("GetClass.PropertyList",
+             lambda c, v: c.GetClass("VT_Thing", PropertyList=v)),
+            ("Associators.PropertyList",
+             lambda c, v: c.Associators(IPATH, PropertyList=v)),
+            ("OpenEnumerateInstances.PropertyList",
+             lambda c, v: c.OpenEnumerateInstances(
+                 "VT_Thing", PropertyList=v, MaxObjectCount=10)),
+            ("ModifyInstance.PropertyList",
+             lambda c, v: c.ModifyInstance(CIMInstance(
+                 "VT_Thing", properties=[CIMProperty("s", "x")], path=IPATH),
+                 PropertyList=v)),
+            # a CIM object position
+            ("CreateInstance.NewInstance",
+             lambda c, v: c.CreateInstance(v, namespace=NS)),
+            ("ModifyInstance.ModifiedInstance",
+             lambda c, v: c.ModifyInstance(v)),
+            ("ExportIndication.NewIndication",
+             lambda c, v: c.ExportIndication(v)),
+            # the value of a method parameter (both ways to give it)
+            ("InvokeMethod.ParamValue",
+             lambda c, v: c.InvokeMethod("DoIt", cn, [("P1", v)])),
+            ("InvokeMethod.KeywordValue",
+             lambda c, v: c.InvokeMethod("DoIt", cn, P1=v)),
+            ("InvokeMethod.ArrayItem",
+             lambda c, v: c.InvokeMethod("DoIt", cn, [("P1", ["a", v])])),
+            # the enumeration context position
+            ("PullInstancesWithPath.context",
+             lambda c, v: c.PullInstancesWithPath(v, MaxObjectCount=10)),
+            ("CloseEnumeration.context",
+             lambda c, v: c.CloseEnumeration(v)),
+        ]
+        for pos, call in rej:
+            # ExportIndication does not validate NewIndication: a float is
+            # written into the request (an accepted plain float)
+            cls = "plain_float" if (
+                pos == "ExportIndication.NewIndication" and
+                t in ("float", "inf")) else "rejected"
+            add("%s=%s" % (pos, t), cls,
+                lambda c, call=call, mk=mk: call(c, mk()))
+    for t, mk in PAIR_ITERABLES.items():
+        add("InvokeMethod.Params=" + t, "iterable_not_list",
+            lambda c, mk=mk: c.InvokeMethod("DoIt", cn, mk()))
+        add("InvokeMethod.Params+kw=" + t, "iterable_not_list",
+            lambda c, mk=mk: c.InvokeMethod("DoIt", IPATH, mk(), P3=True))
+    # an ACCEPTED object that holds a plain float: key bindings
+    for t, v in (("real", 1.5), ("tiny", 3.0e-7), ("inf", float("inf")),
+                 ("neginf", float("-inf"))):
+        add("GetInstance.key=" + t, "plain_float",
+            lambda c, v=v: c.GetInstance(_fkey(v)))
+        add("DeleteInstance.key=" + t, "plain_float",
+            lambda c, v=v: c.DeleteInstance(_fkey(v)))
+        add("Associators.key=" + t, "plain_float",
+            lambda c, v=v: c.Associators(_fkey(v)))
+        add("References.key=" + t, "plain_float",
+            lambda c, v=v: c.References(_fkey(v)))
+        add("InvokeMethod.objkey=" + t, "plain_float",
+            lambda c, v=v: c.InvokeMethod("DoIt", _fkey(v)))
+        add("InvokeMethod.refkey=" + t, "plain_float",
+            lambda c, v=v: c.InvokeMethod("DoIt", cn,
+                                          [("Ref", _fkey(v, "VT_Other"))]))
+        add("ModifyInstance.pathkey=" + t, "plain_float",
+            lambda c, v=v: c.ModifyInstance(CIMInstance(
+                "VT_Thing", properties=[CIMProperty("s", "x")],
+                path=_fkey(v))))
+        add("CreateInstance.refkey=" + t, "plain_float",
+            lambda c, v=v: c.CreateInstance(CIMInstance(
+                "VT_Thing", properties=[
+                    CIMProperty("k", Uint32(1)),
+                    CIMProperty("r", _fkey(v, "VT_Other"),
+                                type="reference")]), namespace=NS))
+
+
+_add_arg_shape_variants()
+
+
 def new_conn(stats):
     conn = pywbem.WBEMConnection(URL, creds=(USER, PASSWORD),
                                  default_namespace=NS, stats_enabled=stats,
@@ -321,7 +484,10 @@ def new_conn(stats):
     return conn, ad
 
 
-def outcome_of(fn, conn):
+_ADDR = re.compile(r"0x[0-9a-fA-F]+")
+
+
+def outcome_of(fn, conn, notes=None):
     try:
         v = fn(conn)
         if isinstance(v, tuple) and hasattr(v, "_fields"):
@@ -332,7 +498,11 @@ def outcome_of(fn, conn):
         return dict(kind="value", cls=type(v).__name__,
                     val=hashlib.sha1(repr(canon).encode()).hexdigest()[:12])
     except Exception as exc:  # noqa: the outcome IS the exception
-        args = tuple(str(a) for a in exc.args[:2])
+        # object addresses in a message ("<object object at 0x...>") differ
+        # between the two executions of the cell
+        args = tuple(_ADDR.sub("0x?", str(a)) for a in exc.args[:2])
+        if notes is not None:
+            notes.append(str(exc)[:300])
         if isinstance(exc, pywbem.CIMError):
             args = (exc.status_code, exc.status_description)
         return dict(kind="exc", cls=type(exc).__name__,
@@ -348,6 +518,8 @@ def dg(b):
 
 
 DETAILS = ["all", "paths", "summary", 0, 1, 7, 8, 50, 1000]
+# responses the argument-shape variants are combined with
+ARG_RESPONSES = ["ok_ascii", "cimerror", "connerror", "ok_untyped_real_key"]
 LOGGER_NAMES = ("pywbem.api", "pywbem.http")
 
 
@@ -523,10 +695,12 @@ def run_cell_history(ctx, cfg, cells, workdir, idx):
         for op, rclass in cells:
             bare_conn, bare_ad = new_conn(False)
             base = op.split(".")[0]
-            bare_ad.script = Script(base, rclass)
+            pick = ctx.rng.randrange(1000)
+            bare_ad.script = Script(base, rclass, pick)
             bare = outcome_of(OPS[op], bare_conn)
-            ob.ad.script = Script(base, rclass)
-            obs = outcome_of(OPS[op], ob.conn)
+            ob.ad.script = Script(base, rclass, pick)
+            notes = []
+            obs = outcome_of(OPS[op], ob.conn, notes)
             statop = WIRE_NAME.get(base, base)  # name the statistics use
             cnt, exc_cnt = stat_snapshot(ob.conn, statop) if cfg["stats"] \
                 else (0, 0)
@@ -545,7 +719,21 @@ def run_cell_history(ctx, cfg, cells, workdir, idx):
             if ev["wire_reply"] == "" or ob.conn.last_raw_reply is None:
                 ev["raw_reply"] = ev["wire_reply"] = ""
             events.append(ev)
-            info.append(dict(op=op, response=rclass, cfg=cfg))
+            info.append(dict(op=op, response=rclass, cfg=cfg,
+                             arg=ARGCLASS.get(op, "listed"),
+                             obs_text=notes[0] if notes else ""))
+            # the model's classification of the argument shape against the
+            # code (binding of ObserverImpl.Core): "rejected" <=> the bare
+            # operation raises before anything is sent
+            if (ARGCLASS.get(op) == "rejected") != (
+                    op in ARGCLASS and bare["kind"] == "exc" and
+                    bare_ad.sent is None):
+                ctx.note_drift("argument shape %s classified %s but the "
+                               "bare operation %s" % (
+                                   op, ARGCLASS.get(op),
+                                   "sent a request" if bare_ad.sent
+                                   is not None else "raised locally"),
+                               dict(op=op, bare=bare))
     finally:
         ob.close()
     return events, info
@@ -590,7 +778,25 @@ def signature(ev, inf, clauses):
         ev["obs"]["cls"] if ev["obs"] != ev["bare"] else "same")
     if "." in inf["op"]:          # argument-shape variants name themselves
         sig += ":" + inf["op"]
+    m = _TOYAML_MSG.match(inf.get("obs_text", ""))
+    if m and ev["obs"]["cls"] == "TypeError":
+        # the observed exception is toyaml()'s "no such type in my list":
+        # name the class of the offending type (projection onto
+        # ObserverImpl's value universe; a type toyaml() is meant to list
+        # keeps its own name)
+        sig += ":toyaml-invalid-type(%s)" % _TOYAML_CLASS.get(
+            m.group(1), "listed:" + m.group(1))
     return sig
+
+
+_TOYAML_MSG = re.compile(
+    r"Invalid type in TestClientRecorder\.toyaml\(\): (\S+) <class ")
+_TOYAML_CLASS = {"float": "outside:plain_float",
+                 "object": "outside:foreign_object",
+                 "complex": "outside:foreign_object"}
+for _t in ("set", "frozenset", "generator", "dict_keys", "dict_items",
+           "dict_values", "range", "zip", "map"):
+    _TOYAML_CLASS[_t] = "outside:iterable_not_list"
 
 
 def cut_offsets():
@@ -621,7 +827,11 @@ def run(ctx):
     for cfg, what in (("ObserverImplLegacyTrunc.cfg",
                        "reply truncated at max_len bytes, then decoded"),
                       ("ObserverImplLegacyTimer.cfg",
-                       "stop_timer needs a numeric server response time")):
+                       "stop_timer needs a numeric server response time"),
+                      ("ObserverImplLegacyToyaml.cfg",
+                       "record() converts with a toyaml() that raises "
+                       "TypeError for every type outside its list (plain "
+                       "float, non-list iterables, rejected arguments)")):
         r = ctx.tlc("ObserverImpl", cfg, must_pass=False, count=False,
                     label="must fail: " + what)
         if r.violated is None:
@@ -631,7 +841,9 @@ def run(ctx):
     wd = os.path.join(ctx.work, "obs")
     os.makedirs(wd, exist_ok=True)
     hists = []
-    ops = sorted(OPS)
+    ops = sorted(o for o in OPS if o not in ARGCLASS)
+    plain = ops
+    shaped = sorted(ARGCLASS)
     cfgs = cfg_space(ctx.rng, quick)
     for i, cfg in enumerate(cfgs):
         if quick:
@@ -639,11 +851,19 @@ def run(ctx):
             cells += [(ctx.rng.choice(ops), ctx.rng.choice(RESPONSES))
                       for _ in range(3)]
             # every argument-shape variant with a success and a CIM error
-            var = [o for o in ops if "." in o]
+            var = [o for o in ops if "." in o and o not in ARGCLASS]
             cells += [(o, ctx.rng.choice(["ok_ascii", "cimerror"]))
                       for o in var]
+            # value types outside toyaml()'s list: a sample per
+            # configuration, a larger one where a recorder converts them
+            cells += [(o, ctx.rng.choice(ARG_RESPONSES))
+                      for o in ctx.rng.sample(
+                          shaped, 90 if cfg["recorder"] else 10)]
         else:
-            cells = [(o, r) for o in ops for r in RESPONSES]
+            cells = [(o, r) for o in plain for r in RESPONSES]
+            cells += [(o, r) for o in (
+                shaped if cfg["recorder"] else ctx.rng.sample(shaped, 40))
+                for r in ARG_RESPONSES]
         ctx.rng.shuffle(cells)
         hists.append(run_cell_history(ctx, cfg, cells, wd, i))
     # nested operations (provider-issued) under recorder / logging / statistics
@@ -659,34 +879,57 @@ def run(ctx):
         hists.append(run_nested_history(cfg, wd, 9000 + j))
     verdicts = ctx.validate_traces("ObserverTrace", "ObserverTrace.cfg",
                                    [h[0] for h in hists])
-    pending = [(e, i, v) for (e, i), v in zip(hists, verdicts)]
-    rounds = 0
-    while pending and rounds < 30:
-        rounds += 1
-        nxt = []
-        for events, info, v in pending:
-            if v["ok"]:
-                continue
-            k = v["at"] - 1
-            ev, inf = events[k], info[k]
-            ctx.report(signature(ev, inf, v["clauses"]),
-                       "%s on response %s with observers %s: outcome %s "
-                       "(bare connection: %s); violates %s" % (
-                           inf["op"], inf["response"], inf["cfg"],
-                           ev["obs"], ev["bare"], ", ".join(v["clauses"])),
-                       {"op": inf["op"], "response": inf["response"],
-                        "cfg": inf["cfg"], "event": ev})
-            # statistics counters are history dependent: continue the same
-            # history after the rejected event only if stats are off
-            if k + 1 < len(events) and not inf["cfg"]["stats"]:
-                nxt.append((events[k + 1:], info[k + 1:]))
-        if not nxt:
-            break
+    def rep(ev, inf, clauses, orig=None):
+        ctx.report(signature(ev, inf, clauses),
+                   "%s on response %s with observers %s: outcome %s "
+                   "(bare connection: %s); violates %s" % (
+                       inf["op"], inf["response"], inf["cfg"],
+                       ev["obs"], ev["bare"], ", ".join(clauses)),
+                   {"op": inf["op"], "response": inf["response"],
+                    "cfg": inf["cfg"], "event": orig or ev,
+                    "judged_as": ev})
+    # TLC stops a history at its first rejected event.  The events after it
+    # are judged one by one in a second TLC run: each as a one-event history
+    # from InitState whose statistics snapshot is taken RELATIVE to the
+    # previous snapshot of the same operation name in the recorded history
+    # (so "counted exactly once" is still what is demanded of that event, and
+    # a wrong count is blamed on the event where the increment was wrong).
+    singles = []
+    for (events, info), v in zip(hists, verdicts):
+        if v["ok"]:
+            continue
+        k = v["at"] - 1
+        rep(events[k], info[k], v["clauses"])
+        last = {}
+        for j, ev in enumerate(events):
+            if j > k:
+                e2 = dict(ev)
+                if ev["stats"]:
+                    b = last.get(ev["op"], (0, 0))
+                    e2["cnt"] = ev["cnt"] - b[0]
+                    e2["exc_cnt"] = ev["exc_cnt"] - b[1]
+                singles.append((e2, info[j], ev))
+            if ev["stats"]:
+                last[ev["op"]] = (ev["cnt"], ev["exc_cnt"])
+    if singles:
         vs = ctx.validate_traces("ObserverTrace", "ObserverTrace.cfg",
-                                 [x[0] for x in nxt],
-                                 label="trace-validate (suffixes)")
-        pending = [(e, i, v) for (e, i), v in zip(nxt, vs)]
+                                 [[x[0]] for x in singles],
+                                 label="trace-validate (events after a "
+                                 "rejected one, one by one)")
+        for (e2, inf, ev), v in zip(singles, vs):
+            if not v["ok"]:
+                rep(e2, inf, v["clauses"], ev)
+    ctx.extra["events_judged_one_by_one"] = len(singles)
     ctx.extra["observer_configurations"] = len(cfgs)
+    shapes = {}
+    for h in hists:
+        for inf in h[1]:
+            k = inf.get("arg", "listed")
+            shapes[k] = shapes.get(k, 0) + 1
+    ctx.extra["cells_per_argument_shape"] = shapes
+    ctx.extra["cells_untyped_real_key_reply"] = sum(
+        1 for h in hists for inf in h[1]
+        if inf["response"] in ("ok_untyped_real_key", "ok_untyped_inf_key"))
     ctx.extra["cells_executed"] = sum(len(h[0]) for h in hists)
     ctx.actions_bound = {"operation_pairs": sum(len(h[0]) for h in hists)}
     ctx.sample({"cfg": hists[0][1][0]["cfg"],
